@@ -7,7 +7,9 @@ import glob, os, re, subprocess, sys, time
 from . import core
 from gen.gen import parse_header, strip_comments  # noqa
 
-LANGS = [('c', ['gcc', '-std=gnu99', '-x', 'c']), ('c++', ['g++', '-std=gnu++11', '-x', 'c++'])]
+LANGS = [('c', ['gcc', '-std=gnu99', '-x', 'c']), ('c++', ['g++', '-std=gnu++11', '-x', 'c++']),
+         # a toolchain that predefines _MSC_VER (clang's MSVC-compatible front end; syntax and constant expressions only)
+         ('c-msvc', ['clang', '--target=x86_64-pc-windows-msvc', '-ffreestanding', '-std=gnu99', '-x', 'c'])]
 
 
 def headers():
@@ -32,8 +34,9 @@ def names_of(inc, h):
         if body == '':
             continue
         objmacros.append(name)
+    allmacros = set(re.findall(r'^[ \t]*#[ \t]*define[ \t]+(\w+)', src, flags=re.M))
     types = re.findall(r'\}\s*(\w+)\s*;', src)
-    types = [t for t in types if t not in ('',)]
+    types = [t for t in types if t not in ('',) and t not in allmacros]      # `} ATTRIBUTE_MACRO;` is not a type name
     structs = ['struct ' + s for s in re.findall(r'\bstruct\s+(\w+)\s*\{', src) if not re.search(r'typedef\s+struct\s+' + s + r'\s*\{', src)]
     return objmacros, enums, types + structs
 
@@ -75,6 +78,44 @@ def compile_probe(inc, h, names, types, bdir):
             if x:
                 d.update(x)
     return d
+
+
+PROBE = r'''
+#include <stdio.h>
+#include <stddef.h>
+#include <stdint.h>
+#include <string.h>
+%s
+struct vt_probe { char c; uint64_t q; uint16_t h; uint32_t w; char d; };
+union vt_u { struct { uint32_t w; uint16_t h; uint64_t q; } s; unsigned char b[16]; };
+int main(void)
+{
+    union vt_u u; memset(&u, 0, sizeof u);
+    u.s.w = 0x01020304u; u.s.h = 0x0506; u.s.q = 0x0708090a0b0c0d0eull;
+    printf("%%d %%d %%d %%d %%d |", (int)sizeof(struct vt_probe), (int)offsetof(struct vt_probe, q), (int)offsetof(struct vt_probe, h), (int)offsetof(struct vt_probe, w), (int)offsetof(struct vt_probe, d));
+    for (unsigned i = 0; i < sizeof u; i++) printf(" %%02x", u.b[i]);
+    printf("\n");
+    return 0;
+}
+'''
+
+
+def pragma_state(inc, hs, bdir):
+    """compiler state a header leaves behind (#pragma pack, #pragma scalar_storage_order, ...): the layout and the
+    stored bytes of a probe structure declared AFTER the header must be those of a unit that includes nothing"""
+    out = {}
+
+    def one(h):
+        src = os.path.join(bdir, 'state_%s.c' % re.sub(r'\W', '_', h or 'none'))
+        open(src, 'w').write(PROBE % ('#include "%s"' % h if h else ''))
+        r = core.sh(['gcc', '-std=gnu99', '-w', '-I' + inc, src, '-o', src[:-2]])
+        if r.returncode != 0:
+            return h, None
+        return h, core.sh([src[:-2]]).stdout.strip()
+    with cf.ThreadPoolExecutor(core.NCPU) as ex:
+        for h, v in ex.map(one, [None] + list(hs)):
+            out[h] = v
+    return out
 
 
 def tu_text(hs, facts):
@@ -123,7 +164,8 @@ def covering_orders(hs, seed=1722, extra=0):
 
 
 def shrink(cfg, langs, inc, facts):
-    """a minimal sub-order of cfg that still fails in one of the given languages (one header removed at a time)"""
+    """a minimal sub-order of cfg that still fails in one of the given languages (one header removed at a time);
+    facts: per language"""
     cur = list(cfg)
     changed = True
     while changed and len(cur) > 1:
@@ -133,7 +175,7 @@ def shrink(cfg, langs, inc, facts):
             fails = False
             for lang, cmd in LANGS:
                 if lang in langs:
-                    pp = subprocess.run(cmd + ['-fsyntax-only', '-w', '-I' + inc, '-'], input=tu_text(trial, facts), stdout=subprocess.PIPE, stderr=subprocess.PIPE, text=True)
+                    pp = subprocess.run(cmd + ['-fsyntax-only', '-w', '-I' + inc, '-'], input=tu_text(trial, facts[lang] if lang in facts else facts), stdout=subprocess.PIPE, stderr=subprocess.PIPE, text=True)
                     fails = fails or pp.returncode != 0
             if fails:
                 cur = trial
@@ -154,6 +196,40 @@ def run(prop, tier):
         macros, enums, types = names_of(inc, h)
         facts[h] = compile_probe(inc, h, macros + enums, types, b) or {}
         nfacts += len(facts[h])
+    # A fact is only asserted in a language in which it holds when its header is included ALONE (the value comes from a C
+    # probe; GNU C accepts things C++ does not). What is left can only fail because of the other headers of a configuration.
+    facts_l = {lang: {h: dict(facts[h]) for h in hs} for lang, cmd in LANGS}
+    dropped = 0
+    for lang, cmd in LANGS:
+        for h in hs:
+            for _ in range(40):
+                text = tu_text((h,), facts_l[lang])
+                pp = subprocess.run(cmd + ['-fsyntax-only', '-w', '-I' + inc, '-'], input=text, stdout=subprocess.PIPE, stderr=subprocess.PIPE, text=True)
+                if pp.returncode == 0:
+                    break
+                lines = text.splitlines()
+                bad = set()
+                for line in pp.stderr.splitlines():
+                    mm = re.search(r'<stdin>:(\d+)', line)
+                    if mm and 'error' in line and 'vsa_' in lines[int(mm.group(1)) - 1]:
+                        c = re.search(r'/\* (sizeof )?(\S+) from (\S+) \*/', lines[int(mm.group(1)) - 1])
+                        if c:
+                            bad.add(('T' if c.group(1) else 'N', c.group(2)))
+                bad = {k for k in bad if k in facts_l[lang][h]} or {k for k in facts_l[lang][h] if k[0] == 'T' and k[1].replace(' ', '#') in pp.stderr} 
+                if not bad:
+                    break          # the header itself does not compile alone in this language: reported below as 'single'
+                for k in bad:
+                    del facts_l[lang][h][k]
+                    dropped += 1
+    st = pragma_state(inc, hs, b)
+    if not st[None]:
+        core.die_infra('pragma-state probe does not build')
+    for h in hs:
+        res.counters['cases'] = res.counters.get('cases', 0) + 1
+        res.counters['transitions'] = res.counters.get('transitions', 0) + 1
+        if st[h] is not None and st[h] != st[None]:
+            res.viol[('C20', 'single:%s leaves compiler state behind (layout or storage order of later declarations)' % h)] = {
+                'count': 1, 'case': 'single:%s' % h, 'detail': 'a probe structure declared after the header: %s; without the header: %s' % (st[h], st[None]), 'tag': ''}
     # planted-bug self-test: a fact that is deliberately off by one must make its translation unit fail
     hplant = next(h for h in hs if facts[h])
     bad = {hplant: dict(facts[hplant])}
@@ -183,9 +259,8 @@ def run(prop, tier):
     configs += full
     jobs = []
     for ci, (kind, cfg) in enumerate(configs):
-        text = tu_text(cfg, facts)
         for lang, cmd in LANGS:
-            jobs.append((ci, kind, cfg, lang, cmd, text))
+            jobs.append((ci, kind, cfg, lang, cmd, tu_text(cfg, facts_l[lang])))
 
     def one(j):
         ci, kind, cfg, lang, cmd, text = j
@@ -201,7 +276,7 @@ def run(prop, tier):
                 items = set()
                 lines = text.splitlines()
                 for line in err.splitlines():
-                    if 'error' not in line:
+                    if 'error' not in line or re.match(r'^\d+ errors? generated', line.strip()):
                         continue
                     mm = re.search(r'<stdin>:(\d+)', line)
                     if mm and 'vsa_' in lines[int(mm.group(1)) - 1]:
@@ -238,7 +313,7 @@ def run(prop, tier):
                 masked += 1
                 reduced.append((kind, cfg))
                 continue
-            cur = shrink(cfg, langs, inc, facts)
+            cur = shrink(cfg, langs, inc, facts_l)
             base = 'order:%s' % '<'.join(cur)
         # one violation per distinct failing name, so that a new clash in an already listed pair is still new
         allitems = {}
@@ -259,12 +334,12 @@ def run(prop, tier):
             keep = tuple(h for h in cfg if h in drop and h != d or h not in drop) if False else tuple(h for h in cfg if h not in drop)
             break
         for lang, cmd in LANGS:
-            rjobs.append((0, kind + '-reduced', keep, lang, cmd, tu_text(keep, facts)))
+            rjobs.append((0, kind + '-reduced', keep, lang, cmd, tu_text(keep, facts_l[lang])))
         # and the complementary reduction: drop the earlier header instead
         drop2 = {a for (a, c) in pair_fail if a in cfg and c in cfg and cfg.index(a) < cfg.index(c)} | {h for h in cfg if h in single_fail}
         keep2 = tuple(h for h in cfg if h not in drop2)
         for lang, cmd in LANGS:
-            rjobs.append((0, kind + '-reduced', keep2, lang, cmd, tu_text(keep2, facts)))
+            rjobs.append((0, kind + '-reduced', keep2, lang, cmd, tu_text(keep2, facts_l[lang])))
     with cf.ThreadPoolExecutor(core.NCPU) as ex:
         for j, rc, err in ex.map(one, rjobs):
             res.counters['cases'] += 1
@@ -274,14 +349,14 @@ def run(prop, tier):
                 rfailed.setdefault(j[2], {})[j[3]] = first[0] if first else err[:200]
     res.counters['states'] += len(rjobs) // 2
     for cfg, langs in rfailed.items():
-        cur = shrink(cfg, langs, inc, facts)
+        cur = shrink(cfg, langs, inc, facts_l)
         key = 'order:%s' % '<'.join(cur)
         e = res.viol.setdefault(('C20', key), {'count': 0, 'case': key, 'detail': '; '.join('%s: %s' % kv for kv in sorted(langs.items())), 'tag': ''})
         e['count'] += 1
     samples = ['pair avtp/aaf/Aaf.h then avtp/aaf/Pcm.h in C99 and C++ with one static assertion per public name of both headers (value when included alone)',
                'full set of %d headers rotated by 7, C++' % len(hs)]
-    core.finish('C20', tier, t0, res, rule='configurations = each header alone, all %d ordered pairs, full set in %d orders - sorted, reversed, rotations and a sequence-covering set of permutations in which every ordered triple of headers occurs in that relative order (thorough: + 200 further permutations and explicit triples through hub headers) x {gcc -std=gnu99, g++}; each TU includes the headers and asserts every public integer name (%d facts: macros, enumerators, sizeof) against its value when the header is included alone; a set/triple failure explained by a failing ordered pair inside it is attributed to the pair' % (len(hs) * (len(hs) - 1), len(full) if tier != 'thorough' else nrot + 2, nfacts),
-                bounds={'headers': len(hs), 'configurations': len(configs), 'languages': 2, 'facts': nfacts, 'masked_by_pair': masked},
+    core.finish('C20', tier, t0, res, rule='configurations = each header alone, all %d ordered pairs, full set in %d orders - sorted, reversed, rotations and a sequence-covering set of permutations in which every ordered triple of headers occurs in that relative order (thorough: + 200 further permutations and explicit triples through hub headers) x {gcc -std=gnu99, g++, clang for an MSVC target (predefines _MSC_VER)}; per header a probe structure declared after it must have the layout and stored bytes it has without the header; each TU includes the headers and asserts every public integer name (%d facts: macros, enumerators, sizeof) against its value when the header is included alone; a set/triple failure explained by a failing ordered pair inside it is attributed to the pair' % (len(hs) * (len(hs) - 1), len(full) if tier != 'thorough' else nrot + 2, nfacts),
+                bounds={'headers': len(hs), 'configurations': len(configs), 'languages': 3, 'facts': nfacts, 'facts_not_asserted_in_a_language_where_they_do_not_hold_alone': dropped, 'masked_by_pair': masked},
                 assumptions=['GNU C as the project uses it (zero-length arrays accepted); -pedantic diagnostics are not violations', 'pairwise conflicts plus the sampled larger sets; a conflict needing three specific headers outside the enumerated sets is not seen in quick'],
                 recipe={'engine': 'c20'}, samples=samples, extra_cov={'compilations': len(jobs), 'planted_bug_selftest': 'a deliberately wrong value for %s %s made its translation unit fail, as required' % k0})
 
